@@ -4,7 +4,10 @@
 EXTENDS MC_Jasm, SequencesExt, Json, IOUtils
 DocSeq == SetToSeq(Docs)
 LstSeq == SetToSeq(Lsts)
-ASSUME JsonSerialize(IOEnv.JASM_OUT, [docs |-> DocSeq, texts |-> [n \in DOMAIN LstSeq |-> ListingLines(LstSeq[n])]])
+DocSeq2 == SetToSeq(Docs2)
+LstSeq2 == SetToSeq(Lsts2)
+ASSUME JsonSerialize(IOEnv.JASM_OUT, [docs |-> DocSeq, texts |-> [n \in DOMAIN LstSeq |-> ListingLines(LstSeq[n])],
+                                      docs2 |-> DocSeq2, texts2 |-> [n \in DOMAIN LstSeq2 |-> ListingLines(LstSeq2[n])]])
 VARIABLE x
 XInit == x = 0 /\ stage = 0 /\ rule = 0 /\ listing = 0 /\ g = 0 /\ pat = 0 /\ rx = 0 /\ stream = 0 /\ found = 0
         /\ outcome = 0 /\ orig = 0 /\ defs = 0 /\ doc = 0 /\ rm = 0 /\ i = 0
